@@ -229,6 +229,32 @@ def run(ctx):
     r.check(ok, "%s#not-committed-policy" % hor.qname, "no stored offset: latest iff the policy is latest, else earliest "
             "is not what the code does", where(hor, hor.node))
 
+    # ---- R7 a reply that fails while it is being handled (decode error) is a failed fetch, whichever way it got there
+    r = ctx.rule("R7", "every chain that hands a fetch reply to the reply handler has the fetch error handler on its failure side", 2, "C")
+    ci_ = prog.cls(CONS)
+    n_h = 0
+    for f in sorted([x for x in prog.funcs.values() if x.cls is ci_], key=lambda x: x.qname):
+        regs = registrations(f, prog)
+        for i, g in enumerate(regs):
+            if g["cb"] is None:
+                continue
+            h = prog.resolve_callable(f, g["cb"])
+            direct = h is hfr
+            via = h is not None and h is not hfr and (h.parent is f or isinstance(g["cb"], ast.Lambda)) and any(
+                prog.resolve_call(h, c) is hfr for c in calls_in(h))
+            if not (direct or via):
+                continue
+            n_h += 1
+            later = [x for x in regs[i:] if x["root"] == g["root"] and x["eb"] is not None and (x is not g or g["kind"] in ("cbs", "both"))]
+            # addCallbacks(cb, eb) does not put eb behind cb: only a later stage catches what cb raises
+            later = [x for x in later if not (x is g and g["kind"] == "cbs")]
+            ok_ = any(prog.resolve_callable(f, x["eb"]) is hfe for x in later)
+            r.check(ok_, "%s#reply-failure-handled[%s]" % (f.qname, g["root"]),
+                    "the reply handler is registered on `%s` without the fetch error handler behind it" % g["root"], where(f, g["call"]),
+                    "a reply parked behind a busy processor whose message set then fails to decode (bad checksum): the exception ends in "
+                    "the block Deferred's chain - no retry, no failure of start(), no request outstanding: the consumer stalls")
+    need(n_h >= 2, "registrations of the fetch reply handler not found")
+
     # ---- R5 buffer kernel
     buffer_kernel(ctx, ctx.rule("R5", "buffer growth: x16 up to 1 MiB else x2; capped by max; fails only at the cap; refetches", 5, "E"))
 
@@ -294,6 +320,9 @@ def buffer_kernel(ctx, r):
 
 
 MUTANTS = [
+    {"id": "parked-reply-without-error-handler", "file": "consumer.py",
+     "old": "            self._msg_block_d.addErrback(self._handle_fetch_error)\n", "new": "", "expect": "C14.R7", "note": "finding F33"},
+
     {"id": "shutdown-overwrites-limit", "file": "consumer.py",
      "old": "        # Create a deferred to track the shutdown\n",
      "new": "        if not self.request_retry_max_attempts:\n            self.request_retry_max_attempts = 2\n        # Create a deferred to track the shutdown\n",
